@@ -422,6 +422,97 @@ theorem sink_finalise_cex :
       (Sink.finalise false s [1, 2, 3] false).1.dst = some [97, 98, 99] ∧
       (Sink.finalise true s [1, 2, 3] false).1.dst = some [97, 98, 99, 122, 122] := by decide
 
+/-! ## Several sinks on one file system -/
+
+/-- The hidden parts directory is `root/.{name}.parts`: two sinks share it exactly when they have
+the same root (destination directory, or `parts_base`) and the same full destination name. -/
+theorem parts_dir_shared_iff (c1 c2 : SinkCfg) :
+    c1.pkey = c2.pkey ↔ c1.root = c2.root ∧ c1.name = c2.name := by
+  simp [SinkCfg.pkey, Prod.ext_iff]
+
+/-- Without `parts_base` the parts-directory function is injective on destinations: different
+destination files (differing in directory, suffix, case, by a prefix, …) have different parts
+directories. -/
+theorem parts_dir_injective_on_destinations (c1 c2 : SinkCfg) (h1 : c1.base = none) (h2 : c2.base = none) :
+    c1.pkey = c2.pkey ↔ c1.dkey = c2.dkey := by
+  simp [SinkCfg.pkey, SinkCfg.dkey, SinkCfg.root, h1, h2]
+
+/-- With private `parts_base` directories the same holds even for equal destination names. -/
+theorem parts_dir_distinct_of_distinct_base (c1 c2 : SinkCfg) (b1 b2 : String) (h1 : c1.base = some b1)
+    (h2 : c2.base = some b2) (hb : b1 ≠ b2) : c1.pkey ≠ c2.pkey := by
+  simp [SinkCfg.pkey, SinkCfg.root, h1, h2, hb]
+
+/-- **sinks_never_interfere**: any number of sinks alive at once, with pairwise different parts
+directories and destinations, under ANY interleaving of their part writes and finalises: what each
+sink sees at the end is exactly what it would see had it run its own operations alone. -/
+theorem sinks_never_interfere (cfgs : List SinkCfg)
+    (hdist : ∀ (i j : Nat) (ci cj : SinkCfg), cfgs[i]? = some ci → cfgs[j]? = some cj → i ≠ j →
+      ci.pkey ≠ cj.pkey ∧ ci.dkey ≠ cj.dkey)
+    (i : Nat) (c : SinkCfg) (hc : cfgs[i]? = some c) (ops : List (Nat × SinkOp)) (fs : FS) :
+    (FS.run cfgs fs ops).1.view c = Sink.runOps (fs.view c) (ownOps i ops) :=
+  FS.run_view cfgs hdist i c hc ops fs
+
+theorem runOps_writes_finalise (s : Sink) (ws : List (Nat × Bytes)) (ps : List Nat) (keep : Bool) :
+    Sink.runOps s (ws.map SinkOp.write ++ [SinkOp.finalise ps keep]) =
+      (Sink.finalise true (ws.foldl Sink.write s) ps keep).1 := by
+  simp only [Sink.runOps, List.foldl_append, List.foldl_map, List.foldl_cons, List.foldl_nil]
+  rfl
+
+/-- The single-sink contract on the shared file system: a sink that starts with nothing of its
+own there, writes parts `ws` (distinct part numbers) and finalises them in that order ends with
+its destination equal to the concatenation of its own data and its parts directory removed -
+whatever the other live sinks did in between. -/
+theorem sink_contract_among_others (cfgs : List SinkCfg)
+    (hdist : ∀ (i j : Nat) (ci cj : SinkCfg), cfgs[i]? = some ci → cfgs[j]? = some cj → i ≠ j →
+      ci.pkey ≠ cj.pkey ∧ ci.dkey ≠ cj.dkey)
+    (i : Nat) (c : SinkCfg) (hc : cfgs[i]? = some c) (ops : List (Nat × SinkOp)) (fs : FS)
+    (hfresh : fs.view c = {}) (ws : List (Nat × Bytes)) (hne : ws ≠ []) (hnd : (ws.map (·.1)).Nodup)
+    (hown : ownOps i ops = ws.map SinkOp.write ++ [SinkOp.finalise (ws.map (·.1)) false]) :
+    ((FS.run cfgs fs ops).1.view c).dst = some (ws.flatMap (·.2)) ∧
+      ((FS.run cfgs fs ops).1.view c).dirExists = false ∧ ((FS.run cfgs fs ops).1.view c).parts = [] := by
+  rw [sinks_never_interfere cfgs hdist i c hc ops fs, hown, hfresh, runOps_writes_finalise]
+  have := sink_write_then_finalise ws hne hnd
+  exact ⟨this.2.1, this.2.2.1, this.2.2.2⟩
+
+/-- **common_parts_base_cex** (known finding K24): the hypothesis is needed and the code as it is violates the contract
+for two destinations with the same name in different directories that are given a COMMON
+`parts_base` (replayed on the real code: `d/x.tif` ends up with the other sink's bytes, the second
+finalise raises FileNotFoundError). -/
+theorem common_parts_base_cex :
+    let a : SinkCfg := { dir := "d", name := "x.tif", base := some "pb" }
+    let b : SinkCfg := { dir := "e", name := "x.tif", base := some "pb" }
+    let r := FS.run [a, b] {} [(0, .write (1, [65, 65, 65, 65])), (1, .write (1, [98, 98])),
+                               (0, .finalise [1] false), (1, .finalise [1] false)]
+    a.dkey ≠ b.dkey ∧ a.pkey = b.pkey ∧ (r.1.view a).dst = some [98, 98] ∧ (r.1.view b).dst = none ∧
+      r.2 = [none, none, none, some .fileNotFound] := by decide
+
+/-- non-vacuity of `sinks_never_interfere`: `dem.tif` and `dem.msk` in one directory -/
+example :
+    let a : SinkCfg := { dir := "d", name := "dem.tif" }
+    let b : SinkCfg := { dir := "d", name := "dem.msk" }
+    a.pkey ≠ b.pkey ∧ a.dkey ≠ b.dkey ∧
+      ((FS.run [a, b] {} [(0, .write (1, [1])), (1, .write (1, [2])), (0, .finalise [1] false),
+                         (1, .finalise [1] false)]).1.view a).dst = some [1] := by decide
+
+/-! ## Addresses and identities -/
+
+/-- the writer's dask token - from which `_build_name` derives the names of the shared Variable
+and Lock - does not depend on the (mutable) upload id, whereas the upload object's token does -/
+theorem writer_token_ignores_upload_id (b k u u' : String) : writerToken b k u = writerToken b k u' := rfl
+
+theorem mpu_token_tracks_upload_id (b k u u' : String) (h : mpuToken b k u = mpuToken b k u') : u = u' := by
+  simpa [mpuToken] using h
+
+/-- the sink's token is determined by its destination and its parts directory -/
+theorem sink_token_spec (c : SinkCfg) : sinkToken c = [c.dir ++ "/" ++ c.name, c.partsDirPath] := rfl
+
+/-- `s3_parse_url` on addresses that are not `s3://…` -/
+theorem parse_url_not_s3 (url : String) (h : url.startsWith "s3://" = false) : s3ParseUrl url = ("", "") := by
+  simp [s3ParseUrl, h]
+
+-- (`s3_parse_url(mpu.url) = (bucket, key)` is checked by the correspondence on generated addresses;
+-- core `String.splitOn` does not reduce in the kernel, so no `decide` example is given.)
+
 /-! ## Limits -/
 
 /-- the model's accessor table is complete (the harness compares it with the protocol) -/
@@ -446,6 +537,25 @@ theorem limits_defaults_ordered :
     sinkLimit true {} .minWriteSz < sinkLimit true {} .maxWriteSz ∧
       sinkLimit true {} .minPart < sinkLimit true {} .maxPart ∧
       s3Limit .minWriteSz < s3Limit .maxWriteSz ∧ s3Limit .minPart < s3Limit .maxPart := by decide
+
+/-- Zero and any other integer are values, not "missing": every keyword that is given is reported as
+given (a truthiness test such as `kw.get(k) or default` would lose `min_part=0`). -/
+theorem limits_given_value_reported (kw : LimitKw) (a : Acc) (v : Int) (h : kw.get a = some v) :
+    sinkLimit true kw a = v := by
+  rw [limits_as_configured, h]
+
+example : sinkLimit true { minPart := some 0, minWriteSz := some 0 } .minPart = 0 ∧
+    sinkLimit true { minPart := some 0, minWriteSz := some 0 } .minWriteSz = 0 ∧
+    sinkLimit true { minPart := some 0 } .maxPart = 10000 := by decide
+
+/-- each accessor depends on its own keyword only -/
+theorem limits_independent (kw kw' : LimitKw) (a : Acc) (h : kw.get a = kw'.get a) :
+    sinkLimit true kw a = sinkLimit true kw' a := by
+  rw [limits_as_configured, limits_as_configured, h]
+
+/-- the S3 writers (`MultiPartUpload`, `DelayedS3Writer`) report the limits of the S3 multipart API -/
+theorem s3_limits_spec : s3Limit .minWriteSz = 5 * 1024 * 1024 ∧ s3Limit .maxWriteSz = 5 * 1024 * 1024 * 1024 ∧
+    s3Limit .minPart = 1 ∧ s3Limit .maxPart = 10000 := by decide
 
 /-- **limits_cex** (F4): as found, `MPUFileSink(dst, min_write_sz=100, max_write_sz=1000,
 min_part=2, max_part=50)` reports `max_write_sz = 100` and `max_part = 2`. -/
